@@ -475,3 +475,181 @@ Proof.
   - destruct (FileData.fd_unpack d); [|discriminate]. cbn [bind]. intros H. injection H as <-. cbn.
     split; [reflexivity|]. unfold fac_pdu_directive_type. rewrite I. reflexivity.
 Qed.
+
+(* ================= C09: a packed PDU followed by further octets ================= *)
+
+Lemma head_app L f s : directive_head L f -> directive_head (L ++ s) f.
+Proof. intros (V & T & tl & ->). split; [exact V|]. split; [exact T|]. exists (tl ++ s). rewrite app_assoc. reflexivity. Qed.
+
+(* the factory decodes L ++ s exactly as L (seven kinds), or refuses it with ValueError (NAK, whose
+   number of segment requests follows from the PDU length alone) *)
+Definition factory_suffix_ok (L : bytes) : Prop := forall s, wf_bytes s ->
+  fac_from_raw (L ++ s) = fac_from_raw L \/ exists e, fac_from_raw (L ++ s) = Err e /\ documented e = true.
+
+Ltac suffix_via H U1 U2 :=
+  let HA := fresh in let HF1 := fresh in let HF2 := fresh in
+  pose proof (head_from_raw _ _ H) as HF1;
+  match goal with s : bytes |- _ => pose proof (head_from_raw _ _ (head_app _ _ s H)) as HF2 end;
+  cbn [directive_fdir fdir_of fd_type nak_pdu_of nak_mk nk_fd] in HF1, HF2;
+  unfold directive_type_of, DT_EOF, DT_METADATA, DT_FINISHED, DT_ACK, DT_NAK, DT_KEEP_ALIVE, DT_PROMPT in HF1, HF2;
+  cbn [Z.eqb Pos.eqb orb bind] in HF1, HF2; rewrite HF1, HF2, U1, U2.
+
+Theorem factory_suffix_eof c q : eof_valid c q -> factory_suffix_ok (eof_layout c q).
+Proof.
+  intros V s W. left. pose proof (eof_head c q V) as H.
+  pose proof (eof_unpack_pack c q s V W) as U1. pose proof (eof_unpack_pack c q [] V ltac:(constructor)) as U2.
+  rewrite app_nil_r in U2. suffix_via H U1 U2. reflexivity.
+Qed.
+Theorem factory_suffix_ack c q : ack_valid c q -> factory_suffix_ok (ack_layout c q).
+Proof.
+  intros V s W. left. pose proof (ack_head c q V) as H.
+  pose proof (ack_unpack_pack c q s V W) as U1. pose proof (ack_unpack_pack c q [] V ltac:(constructor)) as U2.
+  rewrite app_nil_r in U2. suffix_via H U1 U2. reflexivity.
+Qed.
+Theorem factory_suffix_prompt c rr : prompt_valid c rr -> factory_suffix_ok (prompt_layout c rr).
+Proof.
+  intros V s W. left. pose proof (prompt_head c rr V) as H.
+  pose proof (prompt_unpack_pack c rr s V W) as U1. pose proof (prompt_unpack_pack c rr [] V ltac:(constructor)) as U2.
+  rewrite app_nil_r in U2. suffix_via H U1 U2. reflexivity.
+Qed.
+Theorem factory_suffix_ka c v : ka_valid c v -> factory_suffix_ok (ka_layout c v).
+Proof.
+  intros V s W. left. pose proof (ka_head c v V) as H.
+  pose proof (ka_unpack_pack c v s V W) as U1. pose proof (ka_unpack_pack c v [] V ltac:(constructor)) as U2.
+  rewrite app_nil_r in U2. suffix_via H U1 U2. reflexivity.
+Qed.
+Theorem factory_suffix_finished c q : fin_valid c q -> factory_suffix_ok (fin_layout c q).
+Proof.
+  intros V s W. left. pose proof (fin_head c q V) as H.
+  pose proof (fin_unpack_pack c q s V W) as U1. pose proof (fin_unpack_pack c q [] V ltac:(constructor)) as U2.
+  rewrite app_nil_r in U2. suffix_via H U1 U2. reflexivity.
+Qed.
+Theorem factory_suffix_metadata c q o : md_valid c q o -> factory_suffix_ok (md_layout c q o).
+Proof.
+  intros V s W. left. pose proof (md_head c q o V) as H.
+  pose proof (md_unpack_pack c q o s V W) as U1. pose proof (md_unpack_pack c q o [] V ltac:(constructor)) as U2.
+  rewrite app_nil_r in U2. suffix_via H U1 U2. reflexivity.
+Qed.
+Theorem factory_suffix_nak c q : nak_valid c q -> factory_suffix_ok (nak_layout c q).
+Proof.
+  intros V s W. destruct s as [|x s]; [left; rewrite app_nil_r; reflexivity|right].
+  pose proof (nak_head c q V) as H.
+  pose proof (nak_unpack_pack_surplus c q (x :: s) V W ltac:(discriminate)) as U1.
+  pose proof (nak_unpack_pack c q V) as U2.
+  exists EValue. split; [|reflexivity].
+  pose proof (head_from_raw _ _ (head_app _ _ (x :: s) H)) as HF.
+  cbn [nak_pdu_of nak_mk nk_fd fdir_of fd_type] in HF.
+  unfold directive_type_of, DT_EOF, DT_METADATA, DT_FINISHED, DT_ACK, DT_NAK, DT_KEEP_ALIVE, DT_PROMPT in HF.
+  cbn [Z.eqb Pos.eqb orb bind] in HF. rewrite HF, U1. reflexivity.
+Qed.
+Theorem factory_suffix_file_data c q : FileDataSpec.fd_valid c q -> factory_suffix_ok (FileDataSpec.fd_layout c q).
+Proof.
+  intros V s W. left. pose proof (FileDataProofs.fd_header_valid c q V) as HV.
+  assert (HD : exists tl, FileDataSpec.fd_layout c q = hdr_layout (FileDataSpec.fd_header c q) ++ tl).
+  { unfold FileDataSpec.fd_layout. cbv zeta. destruct (cf_crc c =? 1); rewrite <- ?app_assoc; eexists; reflexivity. }
+  destruct HD as (tl & HD).
+  assert (I1 : forall r, fac_is_file_directive (FileDataSpec.fd_layout c q ++ r) = Ok false).
+  { intros r. rewrite HD, <- app_assoc. rewrite fac_is_file_directive_layout by exact HV. reflexivity. }
+  pose proof (I1 []) as I0. rewrite app_nil_r in I0.
+  unfold fac_from_raw. rewrite I1, I0. cbn [bind negb].
+  rewrite FileDataCrc.fd_unpack_pack_full by assumption.
+  pose proof (FileDataCrc.fd_unpack_pack_full c q [] V ltac:(constructor)) as U. rewrite app_nil_r in U. rewrite U.
+  reflexivity.
+Qed.
+
+(* ================= C10: every strict prefix of a packed PDU is refused ================= *)
+
+Lemma firstn_cons_S {A} n (x : A) l : firstn (S n) (x :: l) = x :: firstn n l.
+Proof. reflexivity. Qed.
+
+(* a prefix that ends inside header + directive octet: BytesTooShortError from the inspectors *)
+Lemma head_prefix_short L f n : directive_head L f -> (n < length (fdir_layout f))%nat ->
+  fac_from_raw (firstn n L) = Err ETooShort.
+Proof.
+  intros ((V & R) & T & tl & ->) Ln. rewrite firstn_app_le by lia.
+  assert (LH : length (fdir_layout f) = S (length (hdr_layout (fd_hdr f))))
+    by (unfold fdir_layout; rewrite app_length; cbn [length]; lia).
+  unfold fdir_layout. rewrite firstn_app_le by lia.
+  pose proof (hdr_layout_wf _ V) as WH. destruct (hdr_layout_length _ V) as [LL _].
+  pose proof (header_len_from_raw_pack (fd_hdr f) [] V) as HP. rewrite app_nil_r in HP.
+  pose proof (fac_pdu_type_layout (fd_hdr f) [] V) as TP. rewrite app_nil_r in TP.
+  destruct (hdr_valid_packet_len _ V) as [RHL _].
+  revert WH LL HP TP. unfold hdr_layout, hdr_fixed_layout. cbn [app].
+  set (o0 := 32 + _ + _ + _ + _ + _). set (o1 := _ / 256). set (o2 := _ mod 256).
+  set (o3 := _ * 128 + _ + _ + _). set (R4 := be_encode _ _ ++ _).
+  intros WH LL HP TP.
+  destruct n as [|n].
+  { reflexivity. }
+  rewrite firstn_cons_S. unfold fac_from_raw, fac_is_file_directive. rewrite fac_pdu_type_cons.
+  rewrite fac_pdu_type_cons in TP. injection TP as TP. rewrite TP, T. unfold PDU_FILE_DIRECTIVE. cbn [bind Z.eqb negb].
+  unfold fac_pdu_directive_type, fac_is_file_directive. rewrite fac_pdu_type_cons, TP, T. unfold PDU_FILE_DIRECTIVE. cbn [bind Z.eqb negb].
+  destruct (header_len_from_raw_spec (o0 :: firstn n (o1 :: o2 :: o3 :: R4))) as [S1 S2].
+  destruct n as [|[|[|n]]]; try (rewrite S2 by (unfold len; cbn [firstn length]; lia); reflexivity).
+  rewrite !firstn_cons_S in *.
+  assert (R3 : 0 <= o3 < 256).
+  { unfold wf_bytes in WH. inversion WH as [|? ? _ W1]; subst. inversion W1 as [|? ? _ W2]; subst.
+    inversion W2 as [|? ? _ W3]; subst. inversion W3; subst. assumption. }
+  rewrite (S1 _ _ _ _ _ eq_refl R3). cbn [bind].
+  destruct (header_len_from_raw_spec (o0 :: o1 :: o2 :: o3 :: R4)) as [S1' _].
+  rewrite (S1' _ _ _ _ _ eq_refl R3) in HP.
+  match type of HP with Ok ?X = Ok ?Y => assert (HPE : X = Y) by congruence end. rewrite HPE.
+  rewrite !len_cons. unfold len. rewrite firstn_length.
+  unfold len in LL. cbn [length] in LL, Ln, LH.
+  match goal with |- context [if ?c then Err ETooShort else _] => destruct c eqn:E; [reflexivity|exfalso] end. lia.
+Qed.
+
+(* a longer prefix still starts with the complete base object *)
+Lemma head_prefix_long L f n : directive_head L f -> (length (fdir_layout f) <= n)%nat ->
+  directive_head (firstn n L) f.
+Proof.
+  intros (V & T & tl & ->) Ln. split; [exact V|]. split; [exact T|].
+  exists (firstn (n - length (fdir_layout f)) tl). rewrite firstn_app.
+  rewrite firstn_all2 by lia. reflexivity.
+Qed.
+
+Definition prefix_rejected (L : bytes) : Prop := forall n, (n < length L)%nat ->
+  exists e, fac_from_raw (firstn n L) = Err e /\ documented e = true.
+
+Ltac prefix_via H PR :=
+  let n := fresh "n" in let Ln := fresh "Ln" in intros n Ln;
+  match type of H with directive_head ?L ?f =>
+    destruct (Nat.lt_ge_cases n (length (fdir_layout f))) as [S|S];
+    [exists ETooShort; split; [apply (head_prefix_short L f n H S)|reflexivity]|
+     let HF := fresh in
+     pose proof (head_from_raw _ _ (head_prefix_long L f n H S)) as HF;
+     cbn [directive_fdir fdir_of fd_type nak_pdu_of nak_mk nk_fd] in HF;
+     unfold directive_type_of, DT_EOF, DT_METADATA, DT_FINISHED, DT_ACK, DT_NAK, DT_KEEP_ALIVE, DT_PROMPT in HF;
+     cbn [Z.eqb Pos.eqb orb bind] in HF; rewrite HF;
+     let e := fresh "e" in let U := fresh "U" in let D := fresh "D" in
+     destruct (PR n Ln) as (e & U & D); rewrite U; exists e; split; [reflexivity|exact D]]
+  end.
+
+Theorem factory_prefix_rejected_eof c q : eof_valid c q -> prefix_rejected (eof_layout c q).
+Proof. intros V. pose proof (eof_head c q V) as H. prefix_via H (fun n => eof_prefix_rejected c q n (eof_valid_wf c q V)). Qed.
+Theorem factory_prefix_rejected_ack c q : ack_valid c q -> prefix_rejected (ack_layout c q).
+Proof. intros V. pose proof (ack_head c q V) as H. prefix_via H (fun n => ack_prefix_rejected c q n V). Qed.
+Theorem factory_prefix_rejected_prompt c rr : prompt_valid c rr -> prefix_rejected (prompt_layout c rr).
+Proof. intros V. pose proof (prompt_head c rr V) as H. prefix_via H (fun n => prompt_prefix_rejected c rr n V). Qed.
+Theorem factory_prefix_rejected_ka c v : ka_valid c v -> prefix_rejected (ka_layout c v).
+Proof. intros V. pose proof (ka_head c v V) as H. prefix_via H (fun n => ka_prefix_rejected c v n (proj1 V)). Qed.
+Theorem factory_prefix_rejected_finished c q : fin_valid c q -> prefix_rejected (fin_layout c q).
+Proof. intros V. pose proof (fin_head c q V) as H. prefix_via H (fun n => fin_prefix_rejected c q n V). Qed.
+Theorem factory_prefix_rejected_metadata c q o : md_valid c q o -> prefix_rejected (md_layout c q o).
+Proof. intros V. pose proof (md_head c q o V) as H. prefix_via H (fun n => md_prefix_rejected c q o n V). Qed.
+Theorem factory_prefix_rejected_nak c q : nak_valid c q -> prefix_rejected (nak_layout c q).
+Proof. intros V. pose proof (nak_head c q V) as H. prefix_via H (fun n => nak_prefix_rejected c q n V). Qed.
+
+Theorem factory_prefix_rejected_file_data c q : FileDataSpec.fd_valid c q -> prefix_rejected (FileDataSpec.fd_layout c q).
+Proof.
+  intros V n Ln. pose proof (FileDataProofs.fd_header_valid c q V) as HV.
+  destruct n as [|n]; [exists ETooShort; split; reflexivity|].
+  assert (HD : exists tl, FileDataSpec.fd_layout c q = hdr_layout (FileDataSpec.fd_header c q) ++ tl).
+  { unfold FileDataSpec.fd_layout. cbv zeta. destruct (cf_crc c =? 1); rewrite <- ?app_assoc; eexists; reflexivity. }
+  destruct HD as (tl & HD).
+  pose proof (fac_pdu_type_layout _ tl HV) as TP. rewrite <- HD in TP.
+  destruct (FileDataProofs.fd_prefix_rejected c q (S n) V Ln) as (e & U & D).
+  revert TP U. generalize (FileDataSpec.fd_layout c q) as L. intros [|x L] TP U; [discriminate|].
+  rewrite firstn_cons_S in *. rewrite fac_pdu_type_cons in TP.
+  unfold fac_from_raw, fac_is_file_directive. rewrite fac_pdu_type_cons. injection TP as ->.
+  cbn [bind Z.eqb negb FileDataSpec.fd_header h_type]. rewrite U. exists e. split; [reflexivity|exact D].
+Qed.
